@@ -143,7 +143,7 @@ func anyFileNewerThan(files []string, givenTime time.Time) (bool, error) {
 
 // OnError implements the Checker interface
 func (checker *TimestampChecker) OnError(t *ast.Task) error {
-	if len(t.Sources) == 0 {
+	if len(t.Sources) == 0 || checker.dry {
 		return nil
 	}
 	return os.Remove(checker.timestampFilePath(t))
